@@ -505,7 +505,7 @@ class C12(flatcheck.FlatCheck):
     theorems = ('TM.C12_flat', 'TM.C12_pure', 'TM.C12_unregistered_dest_impossible',
                 'TM.C12_exception_raised_without_handlers', 'TM.C12_exception_routed_with_handlers',
                 # hierarchical engine (Props/C12N.lean)
-                'TM.C12_nested', 'TM.C12_nested_sound', 'TM.C12_nested_pairs', 'TM.C12_nested_may_spec',
+                'TM.C12_nested', 'TM.C12_nested_api', 'TM.C12_nested_sound', 'TM.C12_nested_pairs', 'TM.C12_nested_may_spec',
                 'TM.C12_nested_trigger_spec', 'TM.C12_nested_pure', 'TM.C12_nested_baddest', 'TM.C12_nested_baddest_all',
                 'TM.C12_nested_raised_without_handlers', 'TM.C12_nested_routed_with_handlers',
                 'TM.C12_nested_raise_reaches_caller', 'TM.C12_nested_wf_init', 'TM.C12_nested_wf_trigger',
